@@ -81,3 +81,57 @@ def check(ctx, res, entries):
                     res.fail(Finding("C01.R3", fi.qname, n, fi.loc(n), "`%s` modifies process-wide state the traced program can observe" % norm(n)[:60]))
     if not nglob:
         res.ok("C01.R3", {"no process-global state touched below the trace callback": len(scope)})
+    every_event_locals(ctx, res)
+
+
+def every_event_locals(ctx, res):
+    """The mapping of a frame's locals is asked for only once a tracepoint acts on the frame. On CPython up to 3.12 a
+    trace function that touches `f_locals` makes the interpreter copy the fast locals and closure cells into the
+    mapping and write the mapping back when the trace function returns; done for every event of every frame, an
+    assignment another thread makes to a shared closure variable meanwhile is lost. `every-event code` is what the
+    callback runs unconditionally up to its last `nothing to do` exit."""
+    from .common import trace_worker
+    from .c01 import reachable
+    p, t = ctx.prog, ctx.types
+    wk, _roles = trace_worker(ctx)
+    body = wk.node.body
+    last_guard = -1
+    for i, st in enumerate(body):
+        if isinstance(st, ast.If) and not st.orelse and any(isinstance(x, ast.Return) for x in st.body):
+            last_guard = i
+    if last_guard < 0:
+        res.ok("C01.R3", {"every-event code": "the callback has no early exit; all of it runs for every event"})
+        last_guard = len(body) - 1
+    roots = []
+    for st in body[:last_guard + 1]:
+        if isinstance(st, (ast.Assign, ast.AnnAssign, ast.Expr, ast.AugAssign, ast.Return)):
+            for c in ast.walk(st):
+                if isinstance(c, ast.Call):
+                    tg = t.resolve_call(c, wk)
+                    for f in tg.repo:
+                        roots.append(f)
+                    for cl in tg.ctor:
+                        f = cl.lookup("__init__")
+                        if f is not None:
+                            roots.append(f)
+    seen = {}
+    for r in roots:
+        for f in reachable(ctx, r):
+            seen[t.fkey(f)] = f
+    seen[t.fkey(wk)] = None
+    bad = []
+    for k, f in seen.items():
+        nodes = t.nodes_in(f) if f is not None else [n for st in body[:last_guard + 1] if not isinstance(st, ast.If) for n in ast.walk(st)]
+        for n in nodes:
+            if isinstance(n, ast.Attribute) and n.attr == "f_locals" and isinstance(n.ctx, ast.Load):
+                bad.append((f or wk, n))
+            elif isinstance(n, ast.Call) and isinstance(n.func, ast.Name) and n.func.id == "getattr" and len(n.args) >= 2 \
+                    and isinstance(n.args[1], ast.Constant) and n.args[1].value == "f_locals":
+                bad.append((f or wk, n))
+    for f, n in bad[:3]:
+        res.fail(Finding("C01.R3", f.qname, n, f.loc(n), "`%s` asks for the locals mapping of the frame on every trace event, before any tracepoint matched: "
+                         "CPython then syncs the locals and closure cells of every traced frame around the callback (an assignment made by another "
+                         "thread meanwhile is lost)" % norm(n)))
+    if not bad:
+        res.ok("C01.R3", {"f_locals not read by every-event code": sorted(x for x in seen)[:12], "functions": len(seen)})
+    res.floor("functions run for every trace event", len(seen), 4)
